@@ -25,7 +25,7 @@ DIRECTED = {"DAG", "DiGraph", "BayesianNetwork", "PDAG", "DynamicBayesianNetwork
 # thin wrappers around networkx mutators whose bodies only forward to super(); used through the
 # networkx contract and *listed as assumed* (they are validated at run time by the bounded groups)
 ASSUMED_WRAPPERS = {
-    ("DAG", "add_node"), ("DAG", "add_nodes_from"), ("DAG", "add_edge"), ("DAG", "add_edges_from"),
+    ("DAG", "add_node"), ("DAG", "add_nodes_from"), ("DAG", "add_edges_from"),
     ("UndirectedGraph", "add_node"), ("UndirectedGraph", "add_nodes_from"), ("UndirectedGraph", "add_edge"),
     ("UndirectedGraph", "add_edges_from"),
 }
@@ -110,6 +110,18 @@ class PathTheory:
     def __init__(self, ex):
         self.ex = ex
         self.rels = {}
+        self.watch = []   # ghost relations: every edge relation that comes into play gets the two monotonicity instances against them
+
+    def watch_rel(self, W):
+        """Path_W <= Path_E whenever Path_E is closed under W-steps, and vice versa, for every relation E in play now or later
+        (instances of the induction schema, i.e. theorems of the least fix-point; needed to move acyclicity between pointwise-equal
+        relations that are different terms)"""
+        PW = self.path(W)
+        for k, (X, PX) in list(self.rels.items()):
+            if isinstance(k, int) and not X.eq(W):
+                self.ex.axioms.append(self.induct_rel(W, lambda x, y, PX=PX: PX(x, y)))
+                self.ex.axioms.append(self.induct_rel(X, lambda x, y: PW(x, y)))
+        self.watch.append((W, PW))
 
     def path(self, E):
         k = E.get_id()
@@ -124,6 +136,9 @@ class PathTheory:
             self.ex.axioms.append(z3.ForAll([a, b], z3.Implies(z3.And(P(a, b), a != b), z3.Exists([c], E[a, c]))))
             self.ex.axioms.append(z3.ForAll([a, b], z3.Implies(z3.And(P(a, b), a != b), z3.Exists([c], E[c, b]))))
             self.rels[k] = (E, P)  # pin E: ast ids are recycled after garbage collection
+            for W, PW in self.watch:
+                self.ex.axioms.append(self.induct_rel(W, lambda x, y: P(x, y)))
+                self.ex.axioms.append(self.induct_rel(E, lambda x, y, PW=PW: PW(x, y)))
             self.ex.assumed.add("Path_E axiomatised as a reflexive relation closed under E-steps; leastness only through "
                                 "explicitly listed induction instances (each a theorem of the least fix-point)")
         return self.rels[k][1]
@@ -141,6 +156,12 @@ class PathTheory:
         a, b, c = fresh("a", Atom), fresh("b", Atom), fresh("c", Atom)
         hyp = z3.And(z3.ForAll([a], Rf(a, a)), z3.ForAll([a, b, c], z3.Implies(z3.And(Rf(a, b), E[b, c]), Rf(a, c))))
         return z3.Implies(hyp, z3.ForAll([a, b], z3.Implies(P(a, b), Rf(a, b))))
+
+    def unfold_first(self, E):
+        """a non-trivial path starts with an edge followed by a path (theorem of the least fix-point)."""
+        P = self.path(E)
+        a, b, c = fresh("a", Atom), fresh("b", Atom), fresh("c", Atom)
+        return z3.ForAll([a, b], z3.Implies(z3.And(P(a, b), a != b), z3.Exists([c], z3.And(E[a, c], P(c, b)))))
 
     def simple_paths(self, E):
         """nx.all_simple_paths(G, u, v) as a function (u, v) -> set of node sequences, axiomatised for acyclic G."""
@@ -592,6 +613,11 @@ class Lib:
             else:
                 F["@E"] = z3.Lambda([x, y], z3.Or(E[x, y], z3.And(x == u, y == v), z3.And(x == v, y == u)))
             F["@nodes"] = z3.Store(z3.Store(Nn, u, True), v, True)
+            if directed and getattr(ex.contract, "edge_lemmas", False):
+                # ghost lemma (leastness instance): Path_{E+(u,v)}(a,b) => Path_E(a,b) \/ (Path_E(a,u) /\ Path_E(v,b))
+                th = self.theory(ex)
+                P0 = th.path(E)
+                st.assume(th.induct_rel(F["@E"], lambda a, b: z3.Or(P0(a, b), z3.And(P0(a, u), P0(v, b)))))
             ex.used_lib.add(tag)
             return NONE
         if name == "add_edges_from":
@@ -613,6 +639,12 @@ class Lib:
                 F["@E"] = z3.Lambda([x, y], z3.And(E[x, y], z3.Not(z3.And(x == u, y == v))))
             else:
                 F["@E"] = z3.Lambda([x, y], z3.And(E[x, y], z3.Not(z3.And(x == u, y == v)), z3.Not(z3.And(x == v, y == u))))
+            if directed and getattr(ex.contract, "edge_lemmas", False):
+                # ghost lemmas: Path_{E-(u,v)} <= Path_E (leastness instance), and a non-trivial path of E-(u,v) starts with one of its edges
+                th = self.theory(ex)
+                P0, P1 = th.path(E), th.path(F["@E"])
+                st.assume(th.induct_rel(F["@E"], lambda a, b: P0(a, b)))
+                st.assume(th.unfold_first(F["@E"]))
             ex.used_lib.add(tag)
             return NONE
         if name == "remove_node":
